@@ -148,6 +148,17 @@ func c05Run(in []string) []string {
 	qi := ancestor.NewQuorumIndexer(vals, dagi, c05Diff(diffk))
 
 	var order []int
+	flushedLen := 0
+	dropPending := func() int { // DropNotFlushed: every event added since the last Flush is gone
+		lost := len(order) - flushedLen
+		for _, id := range order[flushedLen:] {
+			delete(events, c05ID(id))
+			delete(num, c05ID(id))
+		}
+		order = order[:flushedLen]
+		index.DropNotFlushed()
+		return lost
+	}
 	lastn := func(k int) []int {
 		if k == 0 || k >= len(order) {
 			return order
@@ -170,7 +181,15 @@ func c05Run(in []string) []string {
 		c0 := crits
 		out := "BAD"
 		switch op[0] {
-		case "E":
+		case "F":
+			index.Flush()
+			flushedLen = len(order)
+			vu.Stat("flush")
+			out = "f"
+		case "D":
+			out = "d" + strconv.Itoa(dropPending())
+			vu.Stat("drop")
+		case "E", "A":
 			if len(op) < 4 {
 				break
 			}
@@ -196,13 +215,16 @@ func c05Run(in []string) []string {
 				return "e1"
 			}()
 			if res != "e1" {
-				index.DropNotFlushed()
 				delete(events, e.ID())
 				delete(num, e.ID())
+				dropPending()
 				vu.Stat("add_fail_" + res)
 			} else {
-				index.Flush()
 				order = append(order, ev.id)
+				if op[0] == "E" {
+					index.Flush()
+					flushedLen = len(order)
+				}
 				vu.Stat("add_ok")
 			}
 			out = res
@@ -547,6 +569,45 @@ func c05Order(r *rand.Rand, d *c05Dag, mode int) []c05Ev {
 	return out
 }
 
+// all parents-first orders of a (small) DAG, up to limit
+func c05AllOrders(d *c05Dag, limit int) [][]c05Ev {
+	var res [][]c05Ev
+	done := map[int]bool{}
+	var cur []c05Ev
+	var rec func()
+	rec = func() {
+		if len(res) >= limit {
+			return
+		}
+		if len(cur) == len(d.evs) {
+			res = append(res, append([]c05Ev{}, cur...))
+			return
+		}
+		for _, e := range d.evs {
+			if done[e.id] {
+				continue
+			}
+			ok := true
+			for _, p := range e.parents {
+				if !done[p] {
+					ok = false
+					break
+				}
+			}
+			if !ok {
+				continue
+			}
+			done[e.id] = true
+			cur = append(cur, e)
+			rec()
+			cur = cur[:len(cur)-1]
+			done[e.id] = false
+		}
+	}
+	rec()
+	return res
+}
+
 func c05Header(d *c05Dag, fcsize, vcsize, diffk, mal int) []string {
 	h := []string{strconv.Itoa(d.nv)}
 	for _, w := range d.ws {
@@ -576,18 +637,96 @@ func c05PickDag(r *rand.Rand, tier string, i int) *c05Dag {
 	return c05GenDag(r, nv, nev, ncheat, 0.2+0.5*r.Float64())
 }
 
+// c05Malform corrupts a few events of a parents-first order so that the stream leaves wf_stream
+// (the index itself validates nothing): seq gaps, a foreign first parent as "self-parent", seq 1
+// with parents kept, creator changed.  Used with mal=1: implementation vs model only.
+func c05Malform(r *rand.Rand, d *c05Dag, order []c05Ev) []c05Ev {
+	out := make([]c05Ev, len(order))
+	copy(out, order)
+	k := 1 + r.Intn(3)
+	for ; k > 0; k-- {
+		i := r.Intn(len(out))
+		e := out[i]
+		e.parents = append([]int{}, e.parents...)
+		switch r.Intn(4) {
+		case 0:
+			e.seq += 1 + r.Intn(3)
+			vu.Stat("mal_seq_gap")
+		case 1:
+			if len(e.parents) >= 2 {
+				e.parents[0], e.parents[1] = e.parents[1], e.parents[0]
+				vu.Stat("mal_foreign_selfparent")
+			}
+		case 2:
+			e.seq = 1
+			vu.Stat("mal_seq1_with_parents")
+		default:
+			e.cr = r.Intn(d.nv)
+			vu.Stat("mal_creator")
+		}
+		out[i] = e
+	}
+	return out
+}
+
 var c05FcSizes = []int{0, 1, 200, 200, 7}
 var c05VcSizes = []int{0, 64, 1638, 1638}
 
 func init() {
 	vu.Register("C05", &vu.Prop{
 		Gen: func(r *rand.Rand, n int, tier string, emit func(...string)) {
+			if tier == "thorough" {
+				// small scope: EVERY parents-first order of small fork DAGs, all pairs after every Add
+				for k := 0; k < 12; k++ {
+					nv := 2 + r.Intn(3)
+					d := c05GenDag(r, nv, 5+r.Intn(3), 1+r.Intn(2), 0.5)
+					for _, order := range c05AllOrders(d, 400) {
+						in := c05Header(d, c05FcSizes[r.Intn(len(c05FcSizes))], c05VcSizes[r.Intn(len(c05VcSizes))], 0, 0)
+						for _, e := range order {
+							in = append(in, c05EvOp(e)...)
+							in = append(in, ";", "Q", "0", "0", ";", "M", "0")
+						}
+						in = append(in, ";", "V", "0")
+						emit(in...)
+						vu.Stat("small_scope_order")
+					}
+				}
+			}
 			for i := 0; i < n; {
 				d := c05PickDag(r, tier, i)
 				for mode := 0; mode < 3 && i < n; mode++ {
 					order := c05Order(r, d, mode)
-					in := c05Header(d, c05FcSizes[r.Intn(len(c05FcSizes))], c05VcSizes[r.Intn(len(c05VcSizes))], 0, 0)
+					mal := 0
+					if r.Intn(8) == 0 {
+						mal = 1
+						order = c05Malform(r, d, order)
+					}
+					in := c05Header(d, c05FcSizes[r.Intn(len(c05FcSizes))], c05VcSizes[r.Intn(len(c05VcSizes))], 0, mal)
 					k := 6 + r.Intn(7)
+					if mal == 0 && r.Intn(5) == 0 {
+						// Flush / DropNotFlushed style: Adds without Flush, explicit F, and D followed by
+						// re-adding the dropped events (as a caller retrying after a failure would)
+						pendingFrom := 0
+						for j := 0; j < len(order); j++ {
+							op := c05EvOp(order[j])
+							op[1] = "A"
+							in = append(in, op...)
+							in = append(in, ";", "Q", strconv.Itoa(k), strconv.Itoa(r.Intn(2)))
+							switch r.Intn(6) {
+							case 0, 1:
+								in = append(in, ";", "F")
+								pendingFrom = j + 1
+							case 2:
+								in = append(in, ";", "D", ";", "Q", strconv.Itoa(k), "0", ";", "V", "3", ";", "M", "0")
+								j = pendingFrom - 1 // re-add everything that was lost
+							}
+						}
+						in = append(in, ";", "F", ";", "Q", "0", "0", ";", "V", "0", ";", "M", "0")
+						emit(in...)
+						i++
+						vu.Stat("scenario_flush_drop")
+						continue
+					}
 					bad := -1
 					if r.Intn(5) == 0 {
 						bad = r.Intn(len(order))
